@@ -201,6 +201,9 @@ def runLine (line : String) : String :=
   | ["R", w, src, ops] => runR false w src ops
   | ["RS", w, src, ops] => runR true w src ops
   | ["PP", o, h] => (match o.toNat? with | some o => runPP o h | none => "bad-op")
+  | ["SZ", w, h] => (match w.toNat?, h.toNat? with
+      | some w, some h => let (l, c, spr) := Gather.planeSizes w h; s!"SZ luma={l} cb={c} cr={c} spr={spr}"
+      | _, _ => "bad-op")
   | "S" :: _ :: rest => runS (" ".intercalate rest)
   | ["P", o, ops] => (match o.toNat? with | some o => runP false o ops | none => "bad-op")
   | ["PX", o, ops] => (match o.toNat? with | some o => runP true o ops | none => "bad-op")
